@@ -72,6 +72,9 @@ func h05u(nDist, nRev int, used bool) {
 
 func H05a_1dist_1rev() { h05(1, 1) }
 func H05b_2dist_0rev() { h05(2, 0) }
+
+// two revoked entries in arbitrary order (a look-up that assumes sorted serials misses one of them)
+func H05j_1dist_2rev() { h05(1, 2) }
 func H05c_0dist()      { h05(0, 0) }
 func T05d_3dist_3rev() { h05(3, 3) }
 func T05e_2dist_2rev() { h05(2, 2) }
